@@ -21,6 +21,12 @@
 //        A = set the clock, histogram!("s").record(v);  P = set the clock, handle.render()
 //     -> k  |  r:<_count>:<_sum bits>:<q,q,..>      (one token per op; the rendered lines parsed back)
 //
+//  W <regime 0|1|2> <bucket_count> <dur_ms> | A<vhex> S<ms> P ...   the same through the exporter on the REAL clock
+//        (build_recorder(), no clock override, real sleeps): A = record now, S = sleep, P = render.  regime 0: nothing
+//        maintains quanta's recent time; 1: a quanta::Upkeep with a 600 s interval runs (process-global); 2: quanta's
+//        recent time was set once at start-up.  W lines of one process share one regime and run side by side.
+//     -> k@<ms>  |  r:<_count>:<_sum bits>:<q,q,..>@<ms>     (one token per A / P; @ = real ms since the scenario began)
+//
 //  Q <qhex>                         metrics_util::parse_quantiles(&[q])[0]
 //     -> <valuebits> <labelhex> <fchex> <fdhex>   value(), label(), and Display of value / value*100 (the
 //        formatting oracle the model is given; computed here with the same expressions as quantile.rs)
@@ -198,6 +204,80 @@ fn roll_case(rest: &str) -> String {
     out.join(" ")
 }
 
+// the rendered lines of the single summary family `s`:  r:<_count>:<_sum bits>:<q,q,..>
+fn parse_summary(text: &str) -> Result<String, String> {
+    let (mut ty, mut sum, mut count) = (String::new(), None, None);
+    let mut qs: Vec<f64> = Vec::new();
+    let mut other = false;
+    for line in text.lines() {
+        if let Some(t) = line.strip_prefix("# TYPE s ") { ty = t.to_string(); }
+        else if line.starts_with('#') || line.is_empty() {}
+        else if let Some(v) = line.strip_prefix("s_sum ") { sum = v.parse::<f64>().ok(); }
+        else if let Some(v) = line.strip_prefix("s_count ") { count = v.parse::<u64>().ok(); }
+        else if line.starts_with("s{quantile=\"") { qs.push(line.rsplit(' ').next().unwrap().parse::<f64>().unwrap()); }
+        else { other = true; }
+    }
+    match (sum, count) {
+        (Some(sm), Some(c)) if ty == "summary" && !other && qs.len() == 5 => Ok(format!("r:{}:{}:{}", c, bits(sm), blist(&qs))),
+        _ => Err(format!("panic:unexpected rendering {}", text.replace('\n', "\\n"))),
+    }
+}
+
+static REGIME: std::sync::OnceLock<u8> = std::sync::OnceLock::new();
+
+// quanta's recent time is process-global: one regime per process
+fn ensure_regime(r: u8) {
+    let cur = *REGIME.get_or_init(|| {
+        match r {
+            1 => {
+                // an application (or another library) keeps quanta's recent time up to date only coarsely
+                let h = quanta::Upkeep::new(Duration::from_secs(600)).start().expect("upkeep");
+                std::mem::forget(h);    // dropping the handle would join a thread that sleeps for the interval
+            }
+            2 => quanta::set_recent(quanta::Instant::now()),
+            _ => {}
+        }
+        r
+    });
+    assert!(cur == r, "one real-clock regime per process");
+}
+
+fn real_case(rest: &str) -> String {
+    let (head, ops) = rest.split_once('|').unwrap();
+    let mut hs = head.split_whitespace();
+    let _regime: u8 = hs.next().unwrap().parse().unwrap();
+    let n: u32 = hs.next().unwrap().parse().unwrap();
+    let dur: u64 = hs.next().unwrap().parse().unwrap();
+    let rec = PrometheusBuilder::new()
+        .set_quantiles(&[0.0, 0.5, 0.9, 0.99, 1.0]).unwrap()
+        .set_bucket_count(NonZeroU32::new(n).unwrap())
+        .set_bucket_duration(Duration::from_millis(dur)).unwrap()
+        .build_recorder();
+    let handle = rec.handle();
+    let t0 = std::time::Instant::now();
+    let mut out: Vec<String> = Vec::new();
+    for tok in ops.split_whitespace() {
+        let (c, r) = tok.split_at(1);
+        match c {
+            "A" => {
+                let v = f(r);
+                metrics::with_local_recorder(&rec, || { metrics::histogram!("s").record(v); });
+                out.push(format!("k@{}", t0.elapsed().as_millis()));
+            }
+            "S" => std::thread::sleep(Duration::from_millis(r.parse().unwrap())),
+            "P" => {
+                let text = handle.render();
+                match parse_summary(&text) {
+                    Ok(tok) => out.push(format!("{}@{}", tok, t0.elapsed().as_millis())),
+                    Err(e) => return e,
+                }
+            }
+            _ => panic!("bad op {}", tok),
+        }
+    }
+    out.join(" ")
+}
+
 fn render_case(rest: &str) -> String {
     let (head, ops) = rest.split_once('|').unwrap();
     let mut hs = head.split_whitespace();
@@ -230,21 +310,9 @@ fn render_case(rest: &str) -> String {
                 "P" => {
                     set(r.parse().unwrap());
                     let text = handle.render();
-                    let (mut ty, mut sum, mut count) = (String::new(), None, None);
-                    let mut qs: Vec<f64> = Vec::new();
-                    let mut other = false;
-                    for line in text.lines() {
-                        if let Some(t) = line.strip_prefix("# TYPE s ") { ty = t.to_string(); }
-                        else if line.starts_with('#') || line.is_empty() {}
-                        else if let Some(v) = line.strip_prefix("s_sum ") { sum = v.parse::<f64>().ok(); }
-                        else if let Some(v) = line.strip_prefix("s_count ") { count = v.parse::<u64>().ok(); }
-                        else if line.starts_with("s{quantile=\"") { qs.push(line.rsplit(' ').next().unwrap().parse::<f64>().unwrap()); }
-                        else { other = true; }
-                    }
-                    match (sum, count) {
-                        (Some(sm), Some(c)) if ty == "summary" && !other && qs.len() == 5 =>
-                            out.push(format!("r:{}:{}:{}", c, bits(sm), blist(&qs))),
-                        _ => return format!("panic:unexpected rendering {}", text.replace('\n', "\\n")),
+                    match parse_summary(&text) {
+                        Ok(tok) => out.push(tok),
+                        Err(e) => return e,
                     }
                 }
                 _ => panic!("bad op {}", tok),
@@ -273,7 +341,18 @@ fn run_case(line: &str) -> String {
         "R" => roll_case(rest),
         "Q" => quant_case(rest),
         "V" => render_case(rest),
+        "W" => real_case(rest),
         _ => panic!("bad case kind"),
+    }
+}
+
+fn guarded(line: String) -> String {
+    match std::panic::catch_unwind(move || run_case(&line)) {
+        Ok(s) => s,
+        Err(e) => {
+            let msg = e.downcast_ref::<String>().cloned().or_else(|| e.downcast_ref::<&str>().map(|s| s.to_string())).unwrap_or_default();
+            format!("panic:{}", msg.replace('\n', " "))
+        }
     }
 }
 
@@ -282,17 +361,23 @@ fn main() {
     let stdin = std::io::stdin();
     let stdout = std::io::stdout();
     let mut w = std::io::BufWriter::new(stdout.lock());
+    // real-clock scenarios (W) sleep: they are started as they are read and run side by side; every other case is
+    // evaluated in place.  Output lines keep the input order.
+    enum Slot { Done(String), Running(std::thread::JoinHandle<String>) }
+    let mut slots: Vec<Slot> = Vec::new();
     for line in stdin.lock().lines() {
         let line = line.unwrap();
         if line.trim().is_empty() { continue; }
-        let l2 = line.clone();
-        let r = std::panic::catch_unwind(move || run_case(&l2));
-        match r {
-            Ok(s) => writeln!(w, "{}", s).unwrap(),
-            Err(e) => {
-                let msg = e.downcast_ref::<String>().cloned().or_else(|| e.downcast_ref::<&str>().map(|s| s.to_string())).unwrap_or_default();
-                writeln!(w, "panic:{}", msg.replace('\n', " ")).unwrap()
-            }
+        if let Some(rest) = line.strip_prefix("W ") {
+            let regime: u8 = rest.split_whitespace().next().unwrap().parse().unwrap();
+            ensure_regime(regime);
+            slots.push(Slot::Running(std::thread::spawn(move || guarded(line))));
+        } else {
+            slots.push(Slot::Done(guarded(line)));
         }
+    }
+    for s in slots {
+        let out = match s { Slot::Done(o) => o, Slot::Running(h) => h.join().unwrap_or_else(|_| "panic:thread".to_string()) };
+        writeln!(w, "{}", out).unwrap();
     }
 }
